@@ -99,7 +99,7 @@ class Spec:
         self.clock = (10 ** 9, 1, 1, 1000)   # freq, delta, q, base
 
     def text(self, builder_ops, run_mode, use_args):
-        lines = ["clock %d %d %d %d" % self.clock]
+        lines = ["clock %d %d %d %d%s" % (self.clock + (" os" if getattr(self, "clock_os", False) else "",))]
         for op in builder_ops:
             lines.append("b " + " ".join(op))
         lines.append("run " + run_mode)
@@ -275,6 +275,10 @@ def gen_spec(rng, profile=None):
     freq = rng.choice([10 ** 9, 10 ** 9, 10 ** 12, 2 * 10 ** 9, 10 ** 6])
     if rng.random() < profile.get("p_coarse_counter", 0.0):
         freq = rng.choice([10 ** 6, 24_000_000, 1000, 32768])      # ticks of 1 us, 41.67 ns, 1 ms, 30.5 us
+    # a quarter of the registries run on the OS timer (the default timer) with the scripted source in its place: 1 tick = 1 ns
+    sp.clock_os = rng.random() < 0.25
+    if sp.clock_os:
+        freq = 10 ** 9
     sp.clock = (freq, rng.choice([1, 1, 2]), 1, rng.choice([1000, 1, 10 ** 6]))
     maxdepth = profile.get("maxdepth", 5)
     target = rng.randrange(profile.get("min_benches", 2), profile.get("max_benches", 16) + 1)
